@@ -56,4 +56,7 @@ Print Assumptions C07_ape_resave.
 Example C07_ape_order_example :
   ape_save false audio [it_title; it_cover; it_url] = ape_save false audio [it_url; it_title; it_cover] /\
   exists f, ape_save false audio [it_cover; it_url; it_title] = Ok f /\ ape_save false f [it_title; it_url; it_cover] = Ok f.
-Proof. split; [vm_compute; reflexivity|]. eexists. split; vm_compute; reflexivity. Qed.
+Proof.
+  split; [vm_compute; reflexivity|].
+  exists (audio ++ ape_render_tag [it_title; it_cover; it_url]). split; vm_compute; reflexivity.
+Qed.
